@@ -567,8 +567,11 @@ def run(modname: str, tier: str, seed: int) -> int:
         "wall_s": round(wall, 2),
         "violations": len(new_violations),
     }
-    os.makedirs(os.path.join(boot.VERIF, "evidence"), exist_ok=True)
-    with open(os.path.join(boot.VERIF, "evidence", f"{mod.ID}.json"), "w", encoding="utf-8") as f:
+    # evidence describes runs against the repository itself; a run against a scratch copy (sensitivity tests with
+    # VERIF_REPO pointing elsewhere) must not overwrite it
+    evdir = "evidence" if os.path.realpath(boot.REPO) == os.path.realpath("/repo") else os.path.join("replays", "scratch-evidence")
+    os.makedirs(os.path.join(boot.VERIF, evdir), exist_ok=True)
+    with open(os.path.join(boot.VERIF, evdir, f"{mod.ID}.json"), "w", encoding="utf-8") as f:
         json.dump(ev, f, ensure_ascii=True, indent=1, default=repr)
     print(
         f"{mod.ID} tier={tier} seed={seed} evaluations={tot['evaluations']} distinct_nontrivial={len(tot['nontrivial'])} "
